@@ -54,6 +54,11 @@ def verify_one(args):
             out["undecided_reason"] = f"{type(e).__name__}: {e}"
             out["wall_s"] = round(time.time() - t0, 3)
             return out
+        import ast as _ast, hashlib
+        h = hashlib.sha1(_ast.dump(fn).encode())
+        for q in sorted(ex.inlined_nodes):
+            h.update(_ast.dump(ex.inlined_nodes[q]).encode())
+        out["source_hash"] = h.hexdigest()[:16]
         out["paths"] = ex.paths
         out["yield_sites"] = ex.yield_sites
         out["assumptions"] = sorted(ex.assumption_log)
